@@ -28,14 +28,14 @@ func init() {
 var profC14Seq = Profile{
 	MaxBars: 6, MinBars: 1, MaxSteps: 35, Refresh: []string{"manual", "autoinj", "autort", "none"}, QLens: []int{-1, -1, 0, -2},
 	Pop: 25, Queue: 15, Prio: true, Ext: 10, Text: 1, Rm: 25, NoPop: 15, AbortW: 2, TicksW: 8,
-	SyncDecors: 1, PlainDecors: 2, Wraps: true, Listeners: 60, EwmaPct: 30, DisabledPct: 8, Delay: 20, DelayNever: 40, Notifier: 60, Fillers: []string{"tag", "bar"}, LateAdd: true, Cancel: 85,
+	SyncDecors: 1, PlainDecors: 2, Wraps: true, Listeners: 60, EwmaPct: 30, DisabledPct: 8, Delay: 20, DelayNever: 40, OutSlow: 10, UserWG: 15, Notifier: 60, Fillers: []string{"tag", "bar"}, LateAdd: true, Cancel: 85,
 }
 
 var profC14Conc = ConcProfile{
 	Profile: Profile{
 		MaxBars: 6, MinBars: 1, Refresh: []string{"autort", "autoinj", "manual", "none"}, QLens: []int{-1, -1, 0, -2},
 		Pop: 25, Queue: 10, Prio: true, Text: 1, Rm: 25, NoPop: 15, AbortW: 2,
-		SyncDecors: 1, PlainDecors: 2, Wraps: true, Listeners: 60, EwmaPct: 30, Delay: 20, DelayNever: 40, Notifier: 60, Fillers: []string{"tag", "bar"},
+		SyncDecors: 1, PlainDecors: 2, Wraps: true, Listeners: 60, EwmaPct: 30, Delay: 20, DelayNever: 40, OutSlow: 10, UserWG: 15, Notifier: 60, Fillers: []string{"tag", "bar"},
 	},
 	MaxBlocks: 3, MaxBlockOps: 8, Pars: 2, CancelIn: 70, PerturbMax: 2, HoldPct: 25, SyncPct: 50,
 }
